@@ -9,6 +9,8 @@
 From V.model Require Import Base Deb822Lex Deb822Parse Grammar Lossy Deb822Edit Copyright Accessors.
 From V.proofs Require Import BaseP GrammarAccP LossyRtP Deb822EditP.
 Require V.proofs.CopyrightP V.proofs.RelParseP V.proofs.GrammarParseP.
+From V.model Require Import LiveDoc.
+Require V.proofs.LiveDocP.
 Set Default Timeout 60.
 
 Local Notation LFc := 10%N.
@@ -1474,4 +1476,60 @@ Proof.
   cbn [valid_typed vparse]. split.
   - destruct (RelParse.relations_from_str s) as [t| | |]; try discriminate. intros _. exists t. reflexivity.
   - intros (t & E). rewrite E, (rel_strict_text s t E). apply str_eqb_refl.
+Qed.
+
+(* ================================================================== 9. the printed document re-read *)
+Lemma upd_nth_In {A} (g : A -> A) c n (p : A) : nth_error c n = Some p -> In (g p) (upd_nth n g c).
+Proof.
+  revert n. induction c as [|x r IH]; intros n H; [destruct n; discriminate|].
+  destruct n as [|n']; cbn [nth_error upd_nth] in *.
+  - inversion H; subst. left. reflexivity.
+  - right. apply IH. exact H.
+Qed.
+Lemma l_set_nonempty p k v : l_set p k v <> [].
+Proof.
+  destruct (l_set_spec p k v) as [(a & x & b & _ & _ & E)|[_ E]]; rewrite E; intro X; apply app_eq_nil in X; destruct X; discriminate.
+Qed.
+
+(* the setter on the n-th paragraph of a live document (every parsed well-formed document and
+   every document built from canonical pairs is one, C04), with a written text in C04's domain:
+   the printed document re-reads without error, the re-read document holds the paragraph with the
+   field set, and the getter on it returns the value *)
+Theorem reread_after_set c g s arg v (d : ldocl) n p f raw :
+  pair_ok g s arg = true -> valid_value c (r_codec g) (r_op s) (r_codec s) v = true ->
+  row_field s arg = Some f -> encode (r_op s) (r_codec s) v = Some (Some raw) -> canon_kv f raw = true ->
+  lwf d = true -> nth_error (doc_items (ltree_of d)) n = Some p ->
+  let t' := on_para (ltree_of d) n (fun cs => para_set cs f raw) in
+  exists t'', from_str (text t') = Ok t'' /\
+    doc_items t'' = nonempty_paras (upd_nth n (fun q => l_set q f raw) (doc_items (ltree_of d))) /\
+    In (l_set p f raw) (doc_items t'') /\
+    getter c LI g arg (l_set p f raw) = Ok (expect (r_codec g) (r_op s) (r_codec s) v).
+Proof.
+  intros Hp Hv Fs He Hc Hwf Hn t'.
+  destruct (LiveDocP.C04_history_all [LiveDocP.OSet n f raw] d Hwf) as (_ & _ & E3 & t'' & E4 & E5); [cbn; split; [exact Hc|exact I]|].
+  cbn [fold_left LiveDocP.tstep LiveDocP.sstep] in *. exists t''. split; [exact E4|]. rewrite E5, E3. split; [reflexivity|]. split.
+  - unfold nonempty_paras. apply filter_In. split; [apply (upd_nth_In (fun q => l_set q f raw)); exact Hn|].
+    pose proof (l_set_nonempty p f raw). destruct (l_set p f raw); [congruence|reflexivity].
+  - destruct (pair_list c g s arg v p Hp Hv) as (f0 & p' & raw0 & Fg & Fs0 & E1 & _ & E2 & E6 & _).
+    rewrite Fs in Fs0. inversion Fs0; subst f0. rewrite He in E1. inversion E1; subst raw0. subst p'. exact E6.
+Qed.
+
+(* a clearing setter: always re-reads *)
+Theorem reread_after_clear (d : ldocl) n f : lwf d = true ->
+  let t' := on_para (ltree_of d) n (fun cs => para_remove cs f) in
+  exists t'', from_str (text t') = Ok t'' /\
+    doc_items t'' = nonempty_paras (upd_nth n (fun q => l_remove q f) (doc_items (ltree_of d))).
+Proof.
+  intros Hwf t'. destruct (LiveDocP.C04_history_all [LiveDocP.ORemove n f] d Hwf) as (_ & _ & E3 & t'' & E4 & E5); [cbn; split; exact I|].
+  cbn [fold_left LiveDocP.tstep LiveDocP.sstep] in *. exists t''. split; [exact E4|]. rewrite E5, E3. reflexivity.
+Qed.
+
+(* the tree a plain setter produces is para_set / para_remove of its field *)
+Lemma setter_TI_tree c s arg v cs f raw : row_field s arg = Some f ->
+  match r_op s with OSet | OSetOrRemove | OSetParam => true | _ => false end = true ->
+  encode (r_op s) (r_codec s) v = Some raw ->
+  setter c TI s arg v cs = match raw with Some t => Ok (para_set cs f t) | None => match r_op s with OSetParam => Err 9%N | _ => Ok (para_remove cs f) end end.
+Proof.
+  unfold row_field, setter. destruct (r_op s); try discriminate; destruct (r_fields s) as [|f1 [|f2 fs]]; try discriminate;
+    intros E _ He; inversion E; subst; rewrite He; destruct raw; reflexivity.
 Qed.
